@@ -6,6 +6,7 @@ func init() {
 		NotDecided:  "correctness of roaring's BSI comparison on negative values (third-party, value level; observed wrong across signs, see DESIGN section 8); field names containing ':'.",
 		Assumptions: []string{"roaring.New/BitmapOf/Clone/CompareValue return fresh storage; BSI.GetExistenceBitmap returns internal storage", "roaring And/Or/AndNot semantics"},
 	}, func(r *Run) {
+		ruleErrProp(r, "C04.ERRPROP", "metadata_index")
 		k, err := metaKindOf(r.W)
 		if err != nil {
 			r.Unres("C04.KIND", "metadata", err.Error())
